@@ -270,14 +270,601 @@ static void run(Arch arch, uint64_t seed, size_t nops) {
   if (used != fresh) fail("residue:final-probe-differs", "after the script the probe program assembles to " + used + ", a fresh emitter gives " + fresh);
 }
 
+// ======================================================================================================
+// Label / section ARGUMENT probes on every emitter kind (Assembler, Builder and Compiler of the architecture).
+//
+// One scenario = one emitter fed a random stream of VALID calls (labels, binds, alignment, data, instructions with
+// and without label operands, constant pools, sections, cursor moves on Builder/Compiler) with INVALID calls drawn
+// from a second random stream in between, and a TWIN emitter that receives only the valid stream. Every invalid
+// call hands a label that does not exist in the attached CodeHolder (or a section of another CodeHolder) to one
+// label-taking entry point. Oracles per invalid call: refused (non-kOk), handler called exactly once with the
+// returned code (throwing handler: the exception arrives), and nothing changed: bytes / offset / current section
+// (Assembler), node list and cursor (Builder, Compiler), label / section / fixup / relocation counts. At the end
+// both emitters are finalized and everything the CodeHolder holds must be equal.
+//
+// Builder and Compiler RECORD embed_label / embed_label_delta / instructions: a label id in such a node is checked
+// when the node is serialized. For these entry points (and JumpAnnotation::add_label, invoke) "accepted, exactly one
+// node appended, handler silent" is a legal outcome (counted as deferred) - then finalize() of an emitter holding
+// such a node must fail and report exactly once (dedicated small scenarios).
+//
+// key = <emitter>:<entry>:<outcome>:<kind of bad argument>
+// ======================================================================================================
+namespace lbl {
+
+enum { K_ASM = 0, K_BUILDER = 1, K_COMPILER = 2 };
+template<typename E> struct EK;
+template<> struct EK<x86::Assembler> { enum { kind = K_ASM, a64 = 0 };      static const char* name() { return "x86.asm"; } };
+template<> struct EK<x86::Builder>   { enum { kind = K_BUILDER, a64 = 0 };  static const char* name() { return "x86.builder"; } };
+template<> struct EK<x86::Compiler>  { enum { kind = K_COMPILER, a64 = 0 }; static const char* name() { return "x86.compiler"; } };
+template<> struct EK<a64::Assembler> { enum { kind = K_ASM, a64 = 1 };      static const char* name() { return "a64.asm"; } };
+template<> struct EK<a64::Builder>   { enum { kind = K_BUILDER, a64 = 1 };  static const char* name() { return "a64.builder"; } };
+template<> struct EK<a64::Compiler>  { enum { kind = K_COMPILER, a64 = 1 }; static const char* name() { return "a64.compiler"; } };
+
+struct ThrowErr { Error err; };
+struct LHandler : public ErrorHandler {
+  int calls = 0; Error last = Error::kOk; bool do_throw = false;
+  void handle_error(Error e, const char*, BaseEmitter*) override { calls++; last = e; if (do_throw) throw ThrowErr{e}; }
+};
+
+enum Bad { B_INVALID, B_COUNT, B_COUNT1, B_COUNT1000, B_FFFFFFFE, B_FOREIGN, B_BOUND };
+static const char* const bad_names[] = { "invalid-id", "count", "count+1", "count+1000", "0xfffffffe", "foreign-holder", "already-bound" };
+
+struct LSnap {
+  size_t labels = 0, secs = 0, fix = 0, rel = 0, total = 0; uint64_t bytes = 0;
+  size_t off = 0; const void* cur_sec = nullptr;                        // Assembler
+  size_t nodes = 0; uint64_t list = 0; const void* cursor = nullptr; bool list_ok = true;   // Builder / Compiler
+};
+
+struct CallResult { Error err; bool threw; };
+template<typename F> static CallResult guarded(F&& f) {
+  try { return CallResult{ f(), false }; } catch (ThrowErr& t) { return CallResult{ t.err, true }; }
+}
+
+static uint64_t g_calls = 0, g_scenarios = 0, g_twin_compared = 0, g_twin_skipped = 0, g_twin_finalize_failed = 0;
+
+template<typename E>
+struct Scenario {
+  typedef EK<E> K;
+  Environment env;
+  CodeHolder code, other;
+  E e;
+  LHandler eh;
+  Arena pool_arena;
+  Rng rv, rb;
+  bool with_bad, risky, is64;
+  std::vector<Label> labels;
+  std::vector<bool> bound;
+  std::vector<Section*> sections, foreign_sections;
+  std::string tainted;          // first violation of this scenario that invalidates the twin comparison
+  bool stop = false;            // an accepted invalid call may have corrupted the emitter: do not touch it again
+  bool last_valid_was_align = false;
+  bool late = false;            // last third of the scenario: argument kinds whose (known) acceptance ends the scenario are drawn only here
+  unsigned name_counter = 0;
+  uint64_t vops = 0;
+
+  Scenario(Arch arch, uint64_t seed, bool with_bad_, bool do_throw, bool risky_)
+    : env(arch), pool_arena(4096), rv(seed * 2 + 1), rb(seed * 2 + 0x5EEDull), with_bad(with_bad_), risky(risky_), is64(arch != Arch::kX86) {
+    code.init(env);
+    eh.do_throw = do_throw;
+    code.set_error_handler(&eh);
+    code.attach(&e);
+    sections.push_back(code.text_section());
+    other.init(env);
+    for (int i = 0; i < 6; i++) {
+      Section* sec = nullptr; char nm[16]; snprintf(nm, sizeof nm, ".f%d", i);
+      if (other.new_section(Out(sec), nm, SIZE_MAX, SectionFlags::kNone, 1, 0) == Error::kOk) foreign_sections.push_back(sec);
+    }
+  }
+
+  std::string emname() const { return K::name(); }
+
+  LSnap snap() {
+    LSnap s;
+    s.labels = code.label_count(); s.secs = code.section_count(); s.fix = code.unresolved_fixup_count(); s.rel = code.reloc_entries().size();
+    uint64_t h = 1469598103934665603ull;
+    for (Section* sec : code.sections()) { size_t n = sec->buffer().size(); h = fnv1a(&n, sizeof n, h); h = fnv1a(sec->buffer().data(), n, h); s.total += n; }
+    s.bytes = h;
+    if constexpr (K::kind == K_ASM) { s.off = e.offset(); s.cur_sec = e.current_section(); }
+    else {
+      uint64_t lh = 1469598103934665603ull; size_t n = 0; BaseNode* prev = nullptr;
+      for (BaseNode* node = e.first_node(); node; node = node->next()) {
+        if (node->prev() != prev || !node->is_active() || ++n > 1000000) { s.list_ok = false; break; }
+        uint64_t rec[2] = { uint64_t(uintptr_t(node)), uint64_t(node->type()) };
+        lh = fnv1a(rec, sizeof rec, lh); prev = node;
+      }
+      if (s.list_ok && e.last_node() != prev) s.list_ok = false;
+      s.nodes = n; s.list = lh; s.cursor = e.cursor();
+    }
+    return s;
+  }
+
+  // ---------------------------------------------------------------- valid stream
+  Label fresh_label() {
+    Label l;
+    if constexpr (K::kind != K_ASM) {
+      if (rv.below(3) == 0) { LabelNode* n = nullptr; if (e.new_label_node(Out(n)) == Error::kOk && n) l = n->label(); }
+      else l = e.new_label();
+    }
+    else l = e.new_label();
+    if (l.is_valid()) { labels.push_back(l); bound.push_back(false); }
+    return l;
+  }
+  size_t pick_unbound() {
+    std::vector<size_t> u; for (size_t i = 0; i < labels.size(); i++) if (!bound[i]) u.push_back(i);
+    if (u.empty()) { fresh_label(); return labels.size() - 1; }
+    return u[rv.below(u.size())];
+  }
+  Label any_valid() { if (labels.empty()) fresh_label(); return labels[rv.below(labels.size())]; }
+  void expect_ok(Error err, const char* what) {
+    vops++;
+    if (err != Error::kOk || eh.calls) {
+      if (tainted.empty()) fail(emname() + ":valid-call-refused:" + what, emname() + ": valid " + what + " failed with " + std::to_string(unsigned(err)) + " (handler calls " + std::to_string(eh.calls) + ") in a scenario without earlier findings");
+      stop = true;
+    }
+    eh.calls = 0;
+  }
+  void make_pool(ConstPool& pool, Rng& r) {
+    static const size_t sizes[] = { 4, 8, 16, 32, 64 };
+    size_t top = 1 + r.below(4);            // alignment 8 .. 64
+    size_t n = 1 + r.below(3);
+    for (size_t i = 0; i < n; i++) {
+      uint8_t data[64]; for (auto& x : data) x = uint8_t(r.next());
+      size_t off; (void)pool.add(data, sizes[i == 0 ? top : r.below(top + 1)], Out(off));
+    }
+  }
+  void valid_inst(Rng& r, bool with_label) {
+    Error err;
+    if constexpr (K::a64) {
+      if (with_label) {
+        Label l = any_valid();
+        switch (r.below(4)) { case 0: err = e.b(l); break; case 1: err = e.b_ne(l); break; case 2: err = e.cbz(a64::w1, l); break; default: err = e.adr(a64::x2, l); break; }
+      }
+      else err = r.below(2) ? e.add(a64::x0, a64::x1, a64::x2) : e.mov(a64::w3, 7);
+    }
+    else {
+      x86::Gp z = is64 ? x86::rax : x86::eax;
+      if (with_label) {
+        Label l = any_valid();
+        switch (r.below(3)) { case 0: err = e.jmp(l); break; case 1: err = e.jz(l); break; default: err = e.lea(z, x86::ptr(l)); break; }
+      }
+      else switch (r.below(3)) { case 0: err = e.add(x86::eax, x86::ecx); break; case 1: err = e.mov(x86::edx, 7); break; default: err = e.inc(x86::ebx); break; }
+    }
+    expect_ok(err, "instruction");
+  }
+  void valid_step() {
+    eh.calls = 0;
+    uint64_t k = rv.below(100);
+    bool was_align = false;
+    if (k < 13) { Label l = fresh_label(); expect_ok(l.is_valid() ? Error::kOk : Error::kOutOfMemory, "new_label"); }
+    else if (k < 25) { size_t i = pick_unbound(); expect_ok(e.bind(labels[i]), "bind"); bound[i] = true; }
+    else if (k < 37) {
+      static const uint32_t al[] = { 1, 2, 4, 8, 16, 32, 64 };
+      AlignMode m = AlignMode(rv.below(3));
+      expect_ok(e.align(m, al[rv.below(7)]), "align"); was_align = true;
+    }
+    else if (k < 50) {
+      uint8_t data[16]; for (auto& x : data) x = uint8_t(rv.next());
+      size_t n = K::a64 ? 4 * (1 + rv.below(3)) : 1 + rv.below(9);     // AArch64: keep instruction alignment
+      expect_ok(e.embed(data, n), "embed");
+    }
+    else if (k < 58) valid_inst(rv, false);
+    else if (k < 66) valid_inst(rv, true);
+    else if (k < 72) expect_ok(e.embed_label(any_valid(), rv.below(2) ? 0 : (is64 ? 8 : 4)), "embed_label");
+    else if (k < 78) { Label l1 = any_valid(), l2 = any_valid(); expect_ok(e.embed_label_delta(l1, l2, rv.below(2) ? 4 : 0), "embed_label_delta"); }
+    else if (k < 86) {
+      ConstPool pool(pool_arena); make_pool(pool, rv);
+      size_t i = pick_unbound();
+      expect_ok(e.embed_const_pool(labels[i], pool), "embed_const_pool"); bound[i] = true;
+    }
+    else if (k < 91) {
+      if (sections.size() < 3) {
+        Section* sec = nullptr; char nm[16]; snprintf(nm, sizeof nm, ".s%zu", sections.size());
+        static const uint32_t al[] = { 1, 8, 16, 64 };
+        Error err = code.new_section(Out(sec), nm, SIZE_MAX, SectionFlags::kNone, al[rv.below(4)], 0);
+        eh.calls = 0;
+        if (err == Error::kOk) sections.push_back(sec);
+      }
+      expect_ok(e.section(sections[rv.below(sections.size())]), "section");
+    }
+    else if (k < 95) {
+      if constexpr (K::kind != K_ASM) {
+        BaseNode* c = e.cursor();
+        if (c && c->prev() && !c->is_section()) { e.set_cursor(c->prev()); vops++; }
+        else valid_inst(rv, false);
+      }
+      else valid_inst(rv, false);
+    }
+    else valid_inst(rv, false);
+    last_valid_was_align = was_align;
+  }
+
+  // ---------------------------------------------------------------- invalid stream
+  bool offset_unaligned(size_t alignment) {
+    if constexpr (K::kind == K_ASM) return (e.offset() & (alignment - 1)) != 0;
+    else { BaseNode* c = e.cursor(); return c && !c->is_align() && !c->is_section(); }   // offsets exist only after serialization: count "does not follow an align/section node"
+  }
+  Label bad_label(int kind) {
+    switch (kind) {
+      case B_INVALID: return Label();
+      case B_COUNT: return Label(uint32_t(code.label_count()));
+      case B_COUNT1: return Label(uint32_t(code.label_count() + 1));
+      case B_COUNT1000: return Label(uint32_t(code.label_count() + 1000));
+      case B_FFFFFFFE: return Label(0xFFFFFFFEu);
+      case B_FOREIGN: {
+        uint32_t id = 0;
+        do { if (other.new_label_id(Out(id)) != Error::kOk) return Label(uint32_t(code.label_count() + 3)); } while (size_t(id) < code.label_count() + 1 + rb.below(4));
+        return Label(id);
+      }
+      default: {
+        std::vector<size_t> b; for (size_t i = 0; i < labels.size(); i++) if (bound[i]) b.push_back(i);
+        return labels[b[rb.below(b.size())]];
+      }
+    }
+  }
+  bool have_bound() { for (size_t i = 0; i < labels.size(); i++) if (bound[i]) return true; return false; }
+
+  void violation(const std::string& entry, const char* outcome, const std::string& badname, const std::string& what, bool taints) {
+    std::string key = emname() + ":" + entry + ":" + outcome + ":" + badname;
+    fail(key, what);
+    if (taints && tainted.empty()) tainted = key;
+  }
+
+  // cr: result of the invalid call; deferred_ok: the entry point records a node (Builder/Compiler); needs_handler: false for raw CodeHolder calls
+  void judge(const std::string& entry, const std::string& badname, const std::string& arg, CallResult cr, const LSnap& b, bool deferred_ok, bool needs_handler, bool out_not_null = false) {
+    g_calls++;
+    g_by_api["lbl." + entry]++; g_by_api["lbl.kind." + badname]++; g_by_api[std::string("lbl.on.") + K::name()]++;
+    if (eh.do_throw) g_by_api["lbl.with-throwing-handler"]++;
+    LSnap a = snap();
+    std::string what = emname() + (is64 || K::a64 ? "" : " (32-bit)") + ": " + entry + "(" + arg + ") with " + std::to_string(b.labels) + " labels, " + std::to_string(b.secs) + " sections defined";
+    if (eh.do_throw) what += " [throwing handler]";
+    bool accepted = cr.err == Error::kOk && !cr.threw;
+    if (accepted && deferred_ok) {
+      if constexpr (K::kind != K_ASM) {
+        if (a.list_ok && a.nodes == b.nodes + 1 && eh.calls == 0 && a.labels == b.labels && a.secs == b.secs) {
+          // recorded: the label id is checked when the node is serialized. Take the node out again so that the twin comparison stays meaningful.
+          g_by_api["lbl.outcome.deferred"]++; g_distinct.insert("lbl:" + emname() + ":" + entry + ":" + badname + ":deferred");
+          e.remove_node(e.cursor());
+          LSnap c = snap();
+          if (c.nodes != b.nodes || c.cursor != b.cursor || c.list != b.list) { tainted = "harness:remove_node"; }
+          eh.calls = 0;
+          return;
+        }
+      }
+    }
+    if (accepted) {
+      g_by_api["lbl.outcome.accepted"]++; g_distinct.insert("lbl:" + emname() + ":" + entry + ":" + badname + ":accepted");
+      violation(entry, "accepted", badname, what + " returned kOk - must be refused" + (eh.calls ? " (handler called " + std::to_string(eh.calls) + " times)" : ""), true);
+      stop = true; eh.calls = 0;
+      return;
+    }
+    g_by_api["lbl.outcome.refused"]++; g_distinct.insert("lbl:" + emname() + ":" + entry + ":" + badname + ":err" + std::to_string(unsigned(cr.err)));
+    what += cr.threw ? " threw error " : " returned error "; what += std::to_string(unsigned(cr.err));
+    if (needs_handler) {
+      if (eh.calls == 0) violation(entry, "handler-not-called", badname, what + " but the attached ErrorHandler was not called", false);
+      else if (eh.calls != 1) violation(entry, "handler-called-more-than-once", badname, what + " and called the ErrorHandler " + std::to_string(eh.calls) + " times", false);
+      else if (eh.last != cr.err) violation(entry, "handler-got-another-error", badname, what + " but the ErrorHandler received " + std::to_string(unsigned(eh.last)), false);
+      if (eh.do_throw && eh.calls && !cr.threw) violation(entry, "exception-swallowed", badname, what + ": the handler threw but the call returned normally", false);
+    }
+    if (out_not_null) violation(entry, "output-set-on-failure", badname, what + " but stored a non-null result", false);
+    if (a.bytes != b.bytes || a.total != b.total || a.off != b.off) violation(entry, "residue-bytes", badname, what + " but code bytes changed: section bytes " + std::to_string(b.total) + " -> " + std::to_string(a.total) + ", offset " + std::to_string(b.off) + " -> " + std::to_string(a.off), true);
+    if (a.cur_sec != b.cur_sec) violation(entry, "residue-current-section", badname, what + " but the current section changed", true);
+    if (!a.list_ok) { violation(entry, "residue-node-list-corrupt", badname, what + " and left a malformed node list", true); stop = true; }
+    else if (a.nodes != b.nodes || a.list != b.list) violation(entry, "residue-nodes", badname, what + " but the node list changed: " + std::to_string(b.nodes) + " -> " + std::to_string(a.nodes) + " nodes", true);
+    if (a.cursor != b.cursor) violation(entry, "residue-cursor", badname, what + " but cursor() moved", true);
+    if (a.labels != b.labels) violation(entry, "residue-labels", badname, what + " but label_count() changed " + std::to_string(b.labels) + " -> " + std::to_string(a.labels), true);
+    if (a.secs != b.secs) violation(entry, "residue-sections", badname, what + " but section_count() changed", true);
+    if (a.fix != b.fix) violation(entry, "residue-fixups", badname, what + " but the unresolved fixup count changed " + std::to_string(b.fix) + " -> " + std::to_string(a.fix), true);
+    if (a.rel != b.rel) violation(entry, "residue-relocations", badname, what + " but the relocation count changed " + std::to_string(b.rel) + " -> " + std::to_string(a.rel), true);
+    eh.calls = 0;
+  }
+
+  int pick_bad_kind(bool bound_allowed) {
+    for (;;) {
+      int k = int(rb.below(7));
+      if (k == B_BOUND && !(bound_allowed && risky && late && have_bound())) continue;
+      return k;
+    }
+  }
+
+  CallResult bad_inst(int variant, const Label& l, std::string& entry) {
+    if constexpr (K::a64) {
+      switch (variant) {
+        case 0: entry = "inst.b"; return guarded([&] { return e.b(l); });
+        case 1: entry = "inst.b_cond"; return guarded([&] { return e.b_ne(l); });
+        case 2: entry = "inst.cbz"; return guarded([&] { return e.cbz(a64::w1, l); });
+        case 3: entry = "inst.tbz"; return guarded([&] { return e.tbz(a64::w1, 3, l); });
+        case 4: entry = "inst.adr"; return guarded([&] { return e.adr(a64::x2, l); });
+        default: entry = "inst.ldr_literal"; return guarded([&] { return e.ldr(a64::x2, a64::ptr(l)); });
+      }
+    }
+    else {
+      x86::Gp z = is64 ? x86::rax : x86::eax;
+      switch (variant) {
+        case 0: entry = "inst.jmp"; return guarded([&] { return e.jmp(l); });
+        case 1: entry = "inst.jcc"; return guarded([&] { return e.jz(l); });
+        case 2: entry = "inst.lea_label_mem"; return guarded([&] { return e.lea(z, x86::ptr(l)); });
+        case 3: entry = "inst.mov_label_mem"; return guarded([&] { return e.mov(x86::eax, x86::dword_ptr(l, 4)); });
+        case 4: entry = "inst.mov_label_index_mem"; return guarded([&] { return e.mov(x86::eax, x86::dword_ptr(l, z, 2, 8)); });
+        default: entry = "inst.jecxz"; return guarded([&] { return e.jecxz(x86::ecx, l); });
+      }
+    }
+  }
+
+  void bad_step() {
+    eh.calls = 0;
+    LSnap b = snap();
+    char arg[160];
+    uint64_t pick = rb.below(K::kind == K_ASM ? 11 : 13);
+    if (last_valid_was_align && rb.below(2) == 0) pick = 0;        // align + bind(invalid)
+    if (pick == 0) {
+      int kind = pick_bad_kind(true); Label l = bad_label(kind);
+      if (last_valid_was_align) g_by_api["lbl.bind.directly-after-align"]++;
+      snprintf(arg, sizeof arg, "Label id %u%s", l.id(), last_valid_was_align ? ", directly after a valid align()" : "");
+      judge("bind", bad_names[kind], arg, guarded([&] { return e.bind(l); }), b, false, true);
+    }
+    else if (pick == 1) {
+      int kind = pick_bad_kind(false); Label l = bad_label(kind);
+      size_t sz = rb.below(2) ? 0 : (is64 ? 8 : 4);
+      snprintf(arg, sizeof arg, "Label id %u, size %zu", l.id(), sz);
+      judge("embed_label", bad_names[kind], arg, guarded([&] { return e.embed_label(l, sz); }), b, K::kind != K_ASM, true);
+    }
+    else if (pick == 2 || pick == 3) {
+      int kind = pick_bad_kind(false); Label l = bad_label(kind);
+      Label good = labels.empty() ? bad_label(int(rb.below(5))) : labels[rb.below(labels.size())];
+      bool first = pick == 2;
+      snprintf(arg, sizeof arg, "label id %u, base id %u, size 4", first ? l.id() : good.id(), first ? good.id() : l.id());
+      judge(first ? "embed_label_delta.label" : "embed_label_delta.base", bad_names[kind], arg,
+            guarded([&] { return first ? e.embed_label_delta(l, good, 4) : e.embed_label_delta(good, l, 4); }), b, K::kind != K_ASM, true);
+    }
+    else if (pick == 4 || pick == 5) {
+      int kind = pick_bad_kind(true); Label l = bad_label(kind);
+      ConstPool pool(pool_arena); make_pool(pool, rb);
+      if (offset_unaligned(pool.alignment())) { g_by_api[K::kind == K_ASM ? "lbl.embed_const_pool.asm-offset-not-aligned-to-pool" : "lbl.embed_const_pool.builder-cursor-not-behind-align"]++; }
+      snprintf(arg, sizeof arg, "Label id %u, pool of %zu bytes aligned to %zu", l.id(), pool.size(), pool.alignment());
+      judge("embed_const_pool", bad_names[kind], arg, guarded([&] { return e.embed_const_pool(l, pool); }), b, false, true);
+    }
+    else if (pick == 6) {
+      int kind = pick_bad_kind(false); uint32_t parent = bad_label(kind).id();
+      if (kind == B_INVALID) { kind = B_COUNT; parent = uint32_t(code.label_count()); }    // no parent at all is the documented way to say "none"
+      char nm[32]; snprintf(nm, sizeof nm, "loc_%u", name_counter++);
+      snprintf(arg, sizeof arg, "'%s', LabelType::kLocal, parent id %u", nm, parent);
+      Label got;
+      CallResult cr = guarded([&] { got = e.new_named_label(nm, SIZE_MAX, LabelType::kLocal, parent); return got.is_valid() ? Error::kOk : (eh.calls ? eh.last : Error::kInvalidLabel); });
+      judge("new_named_label.parent", bad_names[kind], arg, cr, b, false, true);
+    }
+    else if (pick == 7 || pick == 8) {
+      int kind = pick_bad_kind(false); Label l = bad_label(kind);
+      std::string entry; CallResult cr = bad_inst(int(rb.below(6)), l, entry);
+      snprintf(arg, sizeof arg, "Label id %u", l.id());
+      judge(entry, bad_names[kind], arg, cr, b, K::kind != K_ASM, true);
+    }
+    else if (pick == 9) {
+      bool same_id = risky && late && rb.below(3) == 0;
+      Section* sec = nullptr;
+      if (same_id) sec = rb.below(2) ? other.text_section() : (sections.size() > 1 ? other.section_by_id(uint32_t(1 + rb.below(sections.size() - 1))) : other.text_section());
+      else { std::vector<Section*> c; for (Section* s : foreign_sections) if (s->section_id() >= code.section_count()) c.push_back(s); if (c.empty()) return; sec = c[rb.below(c.size())]; }
+      snprintf(arg, sizeof arg, "Section #%u '%s' of another CodeHolder", sec->section_id(), sec->name());
+      judge("section", same_id ? "foreign-holder-existing-id" : "foreign-holder-id-beyond-count", arg, guarded([&] { return e.section(sec); }), b, false, true);
+    }
+    else if (pick == 10) {
+      int kind = pick_bad_kind(K::kind == K_ASM); Label l = bad_label(kind);
+      uint32_t sid = rb.below(4) == 0 ? uint32_t(code.section_count() + rb.below(3)) : 0;
+      if (kind == B_BOUND && sid != 0) sid = 0;
+      snprintf(arg, sizeof arg, "Label id %u, section id %u, offset 0", l.id(), sid);
+      judge("code.bind_label", bad_names[kind], arg, guarded([&] { return code.bind_label(l, sid, 0); }), b, false, false);
+    }
+    else if (pick == 11) {
+      if constexpr (K::kind != K_ASM) {
+        int kind = pick_bad_kind(false); Label l = bad_label(kind);
+        LabelNode* n = nullptr;
+        bool by_id = rb.below(2) == 0;
+        snprintf(arg, sizeof arg, "%s %u", by_id ? "label id" : "Label id", l.id());
+        CallResult cr = guarded([&] { return by_id ? e.label_node_of(Out(n), l.id()) : e.label_node_of(Out(n), l); });
+        if (e.has_registered_label_node(l)) violation("has_registered_label_node", "true-for-unknown-label", bad_names[kind], emname() + ": has_registered_label_node(" + arg + ") is true", false);
+        judge("label_node_of", bad_names[kind], arg, cr, b, false, true, n != nullptr);
+      }
+    }
+    else {
+      if constexpr (K::kind != K_ASM) {
+        static const char* const kn[] = { "count", "count+1000", "invalid-id" };
+        int kind = int(rb.below(3));
+        uint32_t sid = kind == 0 ? uint32_t(code.section_count()) : kind == 1 ? uint32_t(code.section_count() + 1000) : Globals::kInvalidId;
+        SectionNode* n = nullptr;
+        snprintf(arg, sizeof arg, "section id %u", sid);
+        CallResult cr = guarded([&] { return e.section_node_of(Out(n), sid); });
+        judge("section_node_of", kn[kind], arg, cr, b, false, true, n != nullptr);
+      }
+    }
+  }
+
+  // ---------------------------------------------------------------- end of scenario
+  Error finish(std::string& sig) {
+    // bind what is still unbound (valid in both twins), then finalize and describe everything the CodeHolder holds
+    eh.calls = 0;
+    for (size_t i = 0; i < labels.size() && !stop; i++) if (!bound[i]) { expect_ok(e.bind(labels[i]), "bind"); bound[i] = true; }
+    Error fe = Error::kOk;
+    if constexpr (K::kind != K_ASM) {
+      if (!stop) { CallResult cr = guarded([&] { return e.finalize(); }); fe = cr.err; }
+    }
+    eh.calls = 0;
+    sig = "finalize=" + std::to_string(unsigned(fe)) + " labels=" + std::to_string(code.label_count()) + " fixups=" + std::to_string(code.unresolved_fixup_count()) + " relocs=" + std::to_string(code.reloc_entries().size());
+    for (Section* sec : code.sections()) sig += std::string(" ") + sec->name() + "=" + hexstr(sec->buffer().data(), sec->buffer().size());
+    sig += " L:";
+    for (uint32_t i = 0; i < code.label_count(); i++) {
+      const LabelEntry& le = code.label_entry_of(i);
+      sig += le.is_bound() ? std::to_string(le.section_id()) + "+" + std::to_string(le.offset()) + "," : std::string("u,");
+    }
+    return fe;
+  }
+};
+
+template<typename E>
+static void run_scenario(Arch arch, uint64_t seed, size_t max_steps, unsigned index) {
+  size_t steps = max_steps / 4 + Rng(seed ^ 0xABCDEFull).below(max_steps - max_steps / 4 + 1);
+  bool do_throw = (index & 1) != 0, risky = (index % 3) == 0;
+  std::string with_sig, twin_sig, taint;
+  bool stopped;
+  g_scenarios++;
+  {
+    Scenario<E> s(arch, seed, true, do_throw, risky);
+    for (size_t i = 0; i < steps && !s.stop; i++) {
+      s.late = i * 3 >= steps * 2;
+      s.valid_step();
+      if (!s.stop && s.rb.below(5) < 2) s.bad_step();
+    }
+    stopped = s.stop; taint = s.tainted;
+    if (!stopped && taint.empty()) s.finish(with_sig);
+    g_by_api["lbl.valid-calls-in-between"] += s.vops;
+  }
+  if (stopped || !taint.empty()) { g_twin_skipped++; return; }
+  {
+    Scenario<E> t(arch, seed, false, false, risky);
+    for (size_t i = 0; i < steps && !t.stop; i++) t.valid_step();
+    if (t.stop) { g_twin_finalize_failed++; return; }
+    Error fe = t.finish(twin_sig);
+    if (fe != Error::kOk) g_twin_finalize_failed++;
+  }
+  g_twin_compared++;
+  if (with_sig != twin_sig) {
+    size_t p = 0; while (p < with_sig.size() && p < twin_sig.size() && with_sig[p] == twin_sig[p]) p++;
+    size_t from = p > 60 ? p - 60 : 0;
+    fail(std::string(EK<E>::name()) + ":final:differs-from-twin", std::string(EK<E>::name()) + ": every invalid call was refused without visible residue, yet the finalized CodeHolder differs from a twin emitter that got only the valid calls; first difference at " + std::to_string(p) + ": ..." + with_sig.substr(from, 160) + " vs ..." + twin_sig.substr(from, 160));
+  }
+}
+
+// ---------------------------------------------------------------- deferred errors: Builder / Compiler nodes holding a bad label id
+template<typename E>
+static void run_deferred(Arch arch, uint64_t seed, unsigned index) {
+  typedef EK<E> K;
+  if constexpr (K::kind != K_ASM) {
+    Rng r(seed * 77 + index);
+    Environment env(arch);
+    CodeHolder code; LHandler eh;
+    code.init(env); code.set_error_handler(&eh);
+    E e; code.attach(&e);
+    bool is64 = arch != Arch::kX86;
+    eh.do_throw = (index & 1) != 0;
+    bool in_func = K::kind == K_COMPILER;
+    std::string name = K::name();
+    auto emit_some = [&]() {
+      if constexpr (K::kind == K_COMPILER) {
+        if constexpr (K::a64) { a64::Gp v = e.new_gp32(); e.mov(v, 1); e.add(v, v, v); }
+        else { x86::Gp v = e.new_gp32(); e.mov(v, 1); e.add(v, v); }
+      }
+      else {
+        if constexpr (K::a64) { e.mov(a64::w3, 7); e.add(a64::x0, a64::x1, a64::x2); }
+        else { e.mov(x86::edx, 7); e.add(x86::eax, x86::ecx); }
+      }
+    };
+    if constexpr (K::kind == K_COMPILER) { if (in_func) e.add_func(FuncSignature::build<void>()); }
+    Label good = e.new_label();
+    emit_some();
+    (void)e.bind(good);
+    emit_some();
+    eh.calls = 0;
+    static const uint32_t deltas[] = { 0, 1, 1000 };
+    int kind = int(r.below(5));
+    uint32_t id = kind == 0 ? Globals::kInvalidId : kind == 4 ? 0xFFFFFFFEu : uint32_t(code.label_count() + deltas[kind - 1]);
+    Label l(id);
+    const char* badname = bad_names[kind == 4 ? int(B_FFFFFFFE) : kind];
+    std::string entry;
+    CallResult cr{Error::kOk, false};
+    uint64_t variant = r.below(K::kind == K_COMPILER ? 7 : 5);
+    switch (variant) {
+      case 0: entry = "embed_label"; cr = guarded([&] { return e.embed_label(l, 0); }); break;
+      case 1: entry = "embed_label_delta.label"; cr = guarded([&] { return e.embed_label_delta(l, good, 4); }); break;
+      case 2: entry = "embed_label_delta.base"; cr = guarded([&] { return e.embed_label_delta(good, l, 4); }); break;
+      case 3:
+        if constexpr (K::a64) { entry = "inst.b"; cr = guarded([&] { return e.b(l); }); }
+        else { entry = "inst.jmp"; cr = guarded([&] { return e.jmp(l); }); }
+        break;
+      case 4:
+        if constexpr (K::a64) { entry = "inst.adr"; cr = guarded([&] { return e.adr(a64::x2, l); }); }
+        else { entry = "inst.lea_label_mem"; cr = guarded([&] { return e.lea(is64 ? x86::rax : x86::eax, x86::ptr(l)); }); }
+        break;
+      case 5:
+        if constexpr (K::kind == K_COMPILER) {
+          entry = "jump_annotation.add_label";
+          JumpAnnotation* ann = e.new_jump_annotation();
+          if (ann) {
+            (void)ann->add_label(good);
+            Error ae = ann->add_label(l);
+            if (ae != Error::kOk) cr = CallResult{ae, false};
+            else {
+              if constexpr (K::a64) { a64::Gp t = e.new_gp64(); e.adr(t, good); cr = guarded([&] { return e.br(t, ann); }); }
+              else { x86::Gp t = e.new_gp_ptr(); e.lea(t, x86::ptr(good)); cr = guarded([&] { return e.jmp(t, ann); }); }
+            }
+          }
+        }
+        break;
+      default:
+        if constexpr (K::kind == K_COMPILER) {
+          entry = "invoke";
+          InvokeNode* node = nullptr;
+          cr = guarded([&] { return e.invoke(Out(node), l, FuncSignature::build<void>()); });
+        }
+        break;
+    }
+    g_calls++; g_by_api["lbl.deferred." + entry]++;
+    std::string what = name + ": " + entry + " with Label id " + std::to_string(id) + " (" + std::to_string(code.label_count()) + " labels defined)" + (eh.do_throw ? " [throwing handler]" : "");
+    if (cr.err != Error::kOk) {
+      // refused at once: the same rules as everywhere
+      if (eh.calls != 1 && entry != "jump_annotation.add_label") fail(name + ":" + entry + ":handler-not-called:" + badname, what + " was refused with " + std::to_string(unsigned(cr.err)) + " and the handler was called " + std::to_string(eh.calls) + " times");
+      g_by_api["lbl.deferred.refused-at-once"]++;
+      return;
+    }
+    int calls_at_call = eh.calls;
+    emit_some();
+    if constexpr (K::kind == K_COMPILER) { if (in_func) e.end_func(); }
+    eh.calls = 0;
+    CallResult fin = guarded([&] { return e.finalize(); });
+    g_by_api["lbl.deferred.finalize-runs"]++;
+    g_distinct.insert("lbl:" + name + ":" + entry + ":" + badname + ":finalize-err" + std::to_string(unsigned(fin.err)));
+    if (calls_at_call) fail(name + ":" + entry + ":handler-on-success:" + badname, what + " returned kOk but called the handler");
+    if (fin.err == Error::kOk) fail(name + ":" + entry + ":never-refused:" + badname, what + " was accepted and finalize() succeeded as well: the invalid label is never reported");
+    else {
+      if (eh.calls == 0) fail(name + ":" + entry + ":finalize-handler-not-called:" + badname, what + ": finalize() failed with " + std::to_string(unsigned(fin.err)) + " but the handler was not called");
+      else if (eh.calls != 1) fail(name + ":" + entry + ":finalize-handler-called-more-than-once:" + badname, what + ": finalize() failed with " + std::to_string(unsigned(fin.err)) + " and called the handler " + std::to_string(eh.calls) + " times");
+      if (eh.do_throw && eh.calls && !fin.threw) fail(name + ":" + entry + ":finalize-exception-swallowed:" + badname, what + ": the handler threw during finalize() but finalize() returned normally");
+    }
+  }
+}
+
+template<typename A, typename B, typename C>
+static void run_all(Arch arch, uint64_t seed, size_t scenarios, size_t steps) {
+  for (size_t i = 0; i < scenarios; i++) {
+    uint64_t s = seed * 1000003ull + i;
+    switch (i % 3) {
+      case 0: run_scenario<A>(arch, s, steps, unsigned(i / 3)); break;
+      case 1: run_scenario<B>(arch, s, steps, unsigned(i / 3)); break;
+      default: run_scenario<C>(arch, s, steps, unsigned(i / 3)); break;
+    }
+    if (i % 4 == 0) { run_deferred<B>(arch, s, unsigned(i / 4)); run_deferred<C>(arch, s, unsigned(i / 4)); }
+  }
+  g_by_api["lbl.scenarios"] = g_scenarios;
+  g_by_api["lbl.twins-compared"] = g_twin_compared;
+  g_by_api["lbl.twins-skipped-after-finding"] = g_twin_skipped;
+  g_by_api["lbl.twin-finalize-failed"] = g_twin_finalize_failed;
+}
+
+} // namespace lbl
+
 int main(int argc, char** argv) {
   Args args(argc, argv);
   std::string arch = args.str("arch", "x64");
   uint64_t seed = args.u64("seed", 1);
   size_t nops = args.u64("ops", 3000);
-  if (arch == "a64") run<a64::Assembler>(Arch::kAArch64, seed, nops);
-  else run<x86::Assembler>(arch == "x64" ? Arch::kX64 : Arch::kX86, seed, nops);
-  printf("{\"ops\":%llu,\"violations\":[", (unsigned long long)g_by_api["ops_total"]);
+  size_t lscen = args.u64("label-scenarios", 0);
+  size_t lsteps = args.u64("label-steps", 80);
+  if (nops) {
+    if (arch == "a64") run<a64::Assembler>(Arch::kAArch64, seed, nops);
+    else run<x86::Assembler>(arch == "x64" ? Arch::kX64 : Arch::kX86, seed, nops);
+  }
+  if (lscen) {
+    if (arch == "a64") lbl::run_all<a64::Assembler, a64::Builder, a64::Compiler>(Arch::kAArch64, seed, lscen, lsteps);
+    else lbl::run_all<x86::Assembler, x86::Builder, x86::Compiler>(arch == "x64" ? Arch::kX64 : Arch::kX86, seed, lscen, lsteps);
+  }
+  printf("{\"ops\":%llu,\"violations\":[", (unsigned long long)(g_by_api["ops_total"] + lbl::g_calls));
   for (size_t i = 0; i < g_viol.size(); i++) printf("%s{\"key\":%s,\"what\":%s}", i ? "," : "", jstr(g_viol[i].key).c_str(), jstr(g_viol[i].what).c_str());
   printf("],\"by_api\":{");
   bool f = true;
